@@ -340,8 +340,10 @@ func (db *DB) setPin(batch driver.Batching, item, rootItem shed.Item) (gcSizeCha
 						return 0, err
 					}
 				}
+				// the chunk leaves the root's gc entry: only then
+				// is there a cached chunk less to account for
+				gcSizeChange--
 			}
-			gcSizeChange--
 		}
 	}
 
